@@ -12,7 +12,16 @@ import (
 
 var errInjectedWrite = errors.New("injected write failure")
 var errBrokenPipe = errors.New("write: broken pipe")
-var errReadIO = errors.New("read: i/o timeout")
+
+// errReadIO is what a read on a reset link returns: like the error of an expired read deadline or
+// of TCP keep-alive giving up, it is a net.Error that calls itself a timeout and "temporary".
+var errReadIO error = &timeoutError{}
+
+type timeoutError struct{}
+
+func (*timeoutError) Error() string   { return "read: i/o timeout" }
+func (*timeoutError) Timeout() bool   { return true }
+func (*timeoutError) Temporary() bool { return true }
 
 // Frame is one message seen on the wire.
 type Frame struct {
